@@ -25,6 +25,9 @@ def simd_cfg(name, isa_flags, compiler='g++', opt='-O2', extra=()):
     return Cfg(name, ['-DGLM_FORCE_INTRINSICS'] + list(isa_flags) + list(extra), compiler, opt, aligned=True)
 
 
+_THIS_RUN = set()
+
+
 def build_libs(pid, cfgs):
     """Compiles every (configuration, translation unit) pair in parallel; returns {name: path} and a dict of failures."""
     srcs = [os.path.join(ROOT, s) for s in OPS_SRC]
@@ -66,7 +69,10 @@ def build_libs(pid, cfgs):
     if jobs:
         vlib.log('[build] %s: %d op-library objects for %d configurations in %.1fs' % (pid, len(jobs), len({j[0].name for j in jobs}), time.time() - t0))
     # bound disk use: drop library directories of other trees / flags for the configurations we just built
-    keep = {os.path.dirname(p) for p in libs.values()}
+    # (never a directory another stage of this same run has asked for: the driver and the fuzz stage of C03 build configurations of
+    # the same name with different flags, and the second call used to delete the libraries of the first when they were older than 2 h)
+    _THIS_RUN.update(os.path.dirname(p) for p in libs.values())
+    keep = set(_THIS_RUN)
     od = os.path.join(BUILD, 'optable')
     names = {c.name for c in cfgs}
     for e in os.listdir(od):
